@@ -30,6 +30,8 @@ const (
 	kfAddressLength = "address-decode-length"             // StringToUint160 panics on / accepts Base58Check payloads whose length is not 21
 	// the scalar 0 is accepted as a private key (an existing test requires it)
 	kfZeroScalar = "private-key-zero-scalar-accepted"
+	// NewPublicKeyFromBytes hands out its cache entry (an existing test requires the same pointer)
+	kfPubCache = "public-key-cache-entry-handed-out"
 	// CreateMultiSigRedeemScript limits m, not the number of keys (an existing test builds its input that way)
 	kfMultisigKeyLimit = "multisig-builder-limits-m-not-key-count"
 )
